@@ -234,6 +234,10 @@ Definition parse_uint (v : rvalue) : option nat :=
   end.
 
 (* constraint.NewConstraintFromRule and the constructors; the value is a literal here *)
+(* fix 6af6f9e: "comment" is the AST type of a comment inside an enum; no value has it, so additionalProperties refuses it *)
+Definition addprops_type_name (t : string) : bool := mem t valid_schema_types && negb (t =? "comment").
+Arguments addprops_type_name : simpl never.
+
 Definition new_constraint (name : string) (v : rvalue) : result cval :=
   if (name =? "minLength") || (name =? "maxLength") || (name =? "minItems") || (name =? "maxItems") then
     match parse_uint v with Some n => Ok (CNat n) | None => Err ErrInvalidValueOfConstraint end
@@ -254,7 +258,7 @@ Definition new_constraint (name : string) (v : rvalue) : result cval :=
     | Some t =>
       if (t =? "any") || (t =? "true") || (t =? "false") then Ok (CAddProps None)
       else if is_user_type_name t then Ok (CAddProps (Some t))
-      else if mem t valid_schema_types then Ok (CAddProps None)
+      else if addprops_type_name t then Ok (CAddProps None)
       else Err ErrUnknownJSchemaType
     | None => Err ErrUnknownJSchemaType
     end
